@@ -13,7 +13,7 @@ Record view := mkView {
   v_bye : list (Z * Z);                 (* 0x13 external -> oracle, ascending external id *)
   v_prop : list Z;                      (* 0x38 in stored order *)
   v_power : Z;                          (* GetLastTotalPower *)
-  v_deleg : list (Z * Z * Z);           (* real staking: delegations of the delegate addresses *)
+  v_deleg : list (Z * Z * Z);           (* real staking: delegations (oracle, validator, SHARES scaled 10^18) of the delegate addresses *)
   v_ubds : list (Z * Z * Z * Z);        (* real staking: unbonding entries (oracle, validator, completion, balance) *)
   v_balo : list Z;                      (* bank balance of each oracle account, universe order *)
   v_bald : list Z;                      (* bank balance of each delegate address, universe order *)
@@ -22,7 +22,8 @@ Record view := mkView {
   v_batches : list (Z * Z * list Z);    (* batch block index: id, block, confirming external ids *)
   v_slashed_batch : Z;
   v_calls : list (Z * Z * list Z);      (* outgoing bridge calls: nonce, block height, confirming external ids *)
-  v_slashed_call : Z }.
+  v_slashed_call : Z;
+  v_vals : list (Z * Z * Z) }.          (* real staking: validator id, Tokens, DelegatorShares (scaled 10^18) *)
 
 Record universe := mkU { u_accs : list Z; u_orcs : list Z; u_exts : list Z; u_vals : list Z }.
 
@@ -42,7 +43,8 @@ Definition view_of (U : universe) (s : state) : view :=
     (map (bal_o s) (u_orcs U)) (map (bal_d s) (u_orcs U))
     (map (view_obj U) (sets s)) (slashed_set s)
     (map (view_obj U) (batches s)) (slashed_batch_block s)
-    (map (view_obj U) (calls s)) (slashed_call s).
+    (map (view_obj U) (calls s)) (slashed_call s)
+    (map (fun v => (v, vtok s v, vshr s v)) (u_vals U)).
 
 Fixpoint list_eqb {A} (eqb : A -> A -> bool) (l1 l2 : list A) : bool :=
   match l1, l2 with
@@ -76,6 +78,7 @@ Definition view_diff (a b : view) : Z :=
   else if negb (v_slashed_batch a =? v_slashed_batch b) then 13
   else if negb (list_eqb objv_eqb (v_calls a) (v_calls b)) then 14
   else if negb (v_slashed_call a =? v_slashed_call b) then 15
+  else if negb (list_eqb triple_eqb (v_vals a) (v_vals b)) then 16
   else 0.
 
 (* the harness prints, per operation, only what changed in the projection *)
@@ -97,7 +100,8 @@ Inductive vdelta :=
 | DSlashedBat (z : Z)
 | DCall (x : Z * Z * list Z)
 | DCalls (l : list (Z * Z * list Z))
-| DSlashedCall (z : Z).
+| DSlashedCall (z : Z)
+| DVal (x : Z * Z * Z).
 
 Fixpoint insert_rec (r : oracle) (l : list oracle) : list oracle :=
   match l with
@@ -119,26 +123,33 @@ Fixpoint put_obj (x : Z * Z * list Z) (l : list (Z * Z * list Z)) : list (Z * Z 
   | y :: t => if fst (fst y) =? fst (fst x) then x :: t else y :: put_obj x t
   end.
 
+Fixpoint put_val (x : Z * Z * Z) (l : list (Z * Z * Z)) : list (Z * Z * Z) :=
+  match l with
+  | [] => [x]
+  | y :: t => if fst (fst y) =? fst (fst x) then x :: t else y :: put_val x t
+  end.
+
 Definition patch1 (v : view) (d : vdelta) : view :=
   match d with
-  | DRec a r => mkView (patch_rec a r (v_recs v)) (v_byb v) (v_bye v) (v_prop v) (v_power v) (v_deleg v) (v_ubds v) (v_balo v) (v_bald v) (v_sets v) (v_slashed_set v) (v_batches v) (v_slashed_batch v) (v_calls v) (v_slashed_call v)
-  | DByB l => mkView (v_recs v) l (v_bye v) (v_prop v) (v_power v) (v_deleg v) (v_ubds v) (v_balo v) (v_bald v) (v_sets v) (v_slashed_set v) (v_batches v) (v_slashed_batch v) (v_calls v) (v_slashed_call v)
-  | DByE l => mkView (v_recs v) (v_byb v) l (v_prop v) (v_power v) (v_deleg v) (v_ubds v) (v_balo v) (v_bald v) (v_sets v) (v_slashed_set v) (v_batches v) (v_slashed_batch v) (v_calls v) (v_slashed_call v)
-  | DProp l => mkView (v_recs v) (v_byb v) (v_bye v) l (v_power v) (v_deleg v) (v_ubds v) (v_balo v) (v_bald v) (v_sets v) (v_slashed_set v) (v_batches v) (v_slashed_batch v) (v_calls v) (v_slashed_call v)
-  | DPower z => mkView (v_recs v) (v_byb v) (v_bye v) (v_prop v) z (v_deleg v) (v_ubds v) (v_balo v) (v_bald v) (v_sets v) (v_slashed_set v) (v_batches v) (v_slashed_batch v) (v_calls v) (v_slashed_call v)
-  | DDeleg l => mkView (v_recs v) (v_byb v) (v_bye v) (v_prop v) (v_power v) l (v_ubds v) (v_balo v) (v_bald v) (v_sets v) (v_slashed_set v) (v_batches v) (v_slashed_batch v) (v_calls v) (v_slashed_call v)
-  | DUbds l => mkView (v_recs v) (v_byb v) (v_bye v) (v_prop v) (v_power v) (v_deleg v) l (v_balo v) (v_bald v) (v_sets v) (v_slashed_set v) (v_batches v) (v_slashed_batch v) (v_calls v) (v_slashed_call v)
-  | DBalO i z => mkView (v_recs v) (v_byb v) (v_bye v) (v_prop v) (v_power v) (v_deleg v) (v_ubds v) (upd_nth i z (v_balo v)) (v_bald v) (v_sets v) (v_slashed_set v) (v_batches v) (v_slashed_batch v) (v_calls v) (v_slashed_call v)
-  | DBalD i z => mkView (v_recs v) (v_byb v) (v_bye v) (v_prop v) (v_power v) (v_deleg v) (v_ubds v) (v_balo v) (upd_nth i z (v_bald v)) (v_sets v) (v_slashed_set v) (v_batches v) (v_slashed_batch v) (v_calls v) (v_slashed_call v)
-  | DSet x => mkView (v_recs v) (v_byb v) (v_bye v) (v_prop v) (v_power v) (v_deleg v) (v_ubds v) (v_balo v) (v_bald v) (put_obj x (v_sets v)) (v_slashed_set v) (v_batches v) (v_slashed_batch v) (v_calls v) (v_slashed_call v)
-  | DSets l => mkView (v_recs v) (v_byb v) (v_bye v) (v_prop v) (v_power v) (v_deleg v) (v_ubds v) (v_balo v) (v_bald v) l (v_slashed_set v) (v_batches v) (v_slashed_batch v) (v_calls v) (v_slashed_call v)
-  | DSlashedSet z => mkView (v_recs v) (v_byb v) (v_bye v) (v_prop v) (v_power v) (v_deleg v) (v_ubds v) (v_balo v) (v_bald v) (v_sets v) z (v_batches v) (v_slashed_batch v) (v_calls v) (v_slashed_call v)
-  | DBatch x => mkView (v_recs v) (v_byb v) (v_bye v) (v_prop v) (v_power v) (v_deleg v) (v_ubds v) (v_balo v) (v_bald v) (v_sets v) (v_slashed_set v) (put_obj x (v_batches v)) (v_slashed_batch v) (v_calls v) (v_slashed_call v)
-  | DBatches l => mkView (v_recs v) (v_byb v) (v_bye v) (v_prop v) (v_power v) (v_deleg v) (v_ubds v) (v_balo v) (v_bald v) (v_sets v) (v_slashed_set v) l (v_slashed_batch v) (v_calls v) (v_slashed_call v)
-  | DSlashedBat z => mkView (v_recs v) (v_byb v) (v_bye v) (v_prop v) (v_power v) (v_deleg v) (v_ubds v) (v_balo v) (v_bald v) (v_sets v) (v_slashed_set v) (v_batches v) z (v_calls v) (v_slashed_call v)
-  | DCall x => mkView (v_recs v) (v_byb v) (v_bye v) (v_prop v) (v_power v) (v_deleg v) (v_ubds v) (v_balo v) (v_bald v) (v_sets v) (v_slashed_set v) (v_batches v) (v_slashed_batch v) (put_obj x (v_calls v)) (v_slashed_call v)
-  | DCalls l => mkView (v_recs v) (v_byb v) (v_bye v) (v_prop v) (v_power v) (v_deleg v) (v_ubds v) (v_balo v) (v_bald v) (v_sets v) (v_slashed_set v) (v_batches v) (v_slashed_batch v) l (v_slashed_call v)
-  | DSlashedCall z => mkView (v_recs v) (v_byb v) (v_bye v) (v_prop v) (v_power v) (v_deleg v) (v_ubds v) (v_balo v) (v_bald v) (v_sets v) (v_slashed_set v) (v_batches v) (v_slashed_batch v) (v_calls v) z
+  | DRec a r => mkView (patch_rec a r (v_recs v)) (v_byb v) (v_bye v) (v_prop v) (v_power v) (v_deleg v) (v_ubds v) (v_balo v) (v_bald v) (v_sets v) (v_slashed_set v) (v_batches v) (v_slashed_batch v) (v_calls v) (v_slashed_call v) (v_vals v)
+  | DByB l => mkView (v_recs v) l (v_bye v) (v_prop v) (v_power v) (v_deleg v) (v_ubds v) (v_balo v) (v_bald v) (v_sets v) (v_slashed_set v) (v_batches v) (v_slashed_batch v) (v_calls v) (v_slashed_call v) (v_vals v)
+  | DByE l => mkView (v_recs v) (v_byb v) l (v_prop v) (v_power v) (v_deleg v) (v_ubds v) (v_balo v) (v_bald v) (v_sets v) (v_slashed_set v) (v_batches v) (v_slashed_batch v) (v_calls v) (v_slashed_call v) (v_vals v)
+  | DProp l => mkView (v_recs v) (v_byb v) (v_bye v) l (v_power v) (v_deleg v) (v_ubds v) (v_balo v) (v_bald v) (v_sets v) (v_slashed_set v) (v_batches v) (v_slashed_batch v) (v_calls v) (v_slashed_call v) (v_vals v)
+  | DPower z => mkView (v_recs v) (v_byb v) (v_bye v) (v_prop v) z (v_deleg v) (v_ubds v) (v_balo v) (v_bald v) (v_sets v) (v_slashed_set v) (v_batches v) (v_slashed_batch v) (v_calls v) (v_slashed_call v) (v_vals v)
+  | DDeleg l => mkView (v_recs v) (v_byb v) (v_bye v) (v_prop v) (v_power v) l (v_ubds v) (v_balo v) (v_bald v) (v_sets v) (v_slashed_set v) (v_batches v) (v_slashed_batch v) (v_calls v) (v_slashed_call v) (v_vals v)
+  | DUbds l => mkView (v_recs v) (v_byb v) (v_bye v) (v_prop v) (v_power v) (v_deleg v) l (v_balo v) (v_bald v) (v_sets v) (v_slashed_set v) (v_batches v) (v_slashed_batch v) (v_calls v) (v_slashed_call v) (v_vals v)
+  | DBalO i z => mkView (v_recs v) (v_byb v) (v_bye v) (v_prop v) (v_power v) (v_deleg v) (v_ubds v) (upd_nth i z (v_balo v)) (v_bald v) (v_sets v) (v_slashed_set v) (v_batches v) (v_slashed_batch v) (v_calls v) (v_slashed_call v) (v_vals v)
+  | DBalD i z => mkView (v_recs v) (v_byb v) (v_bye v) (v_prop v) (v_power v) (v_deleg v) (v_ubds v) (v_balo v) (upd_nth i z (v_bald v)) (v_sets v) (v_slashed_set v) (v_batches v) (v_slashed_batch v) (v_calls v) (v_slashed_call v) (v_vals v)
+  | DSet x => mkView (v_recs v) (v_byb v) (v_bye v) (v_prop v) (v_power v) (v_deleg v) (v_ubds v) (v_balo v) (v_bald v) (put_obj x (v_sets v)) (v_slashed_set v) (v_batches v) (v_slashed_batch v) (v_calls v) (v_slashed_call v) (v_vals v)
+  | DSets l => mkView (v_recs v) (v_byb v) (v_bye v) (v_prop v) (v_power v) (v_deleg v) (v_ubds v) (v_balo v) (v_bald v) l (v_slashed_set v) (v_batches v) (v_slashed_batch v) (v_calls v) (v_slashed_call v) (v_vals v)
+  | DSlashedSet z => mkView (v_recs v) (v_byb v) (v_bye v) (v_prop v) (v_power v) (v_deleg v) (v_ubds v) (v_balo v) (v_bald v) (v_sets v) z (v_batches v) (v_slashed_batch v) (v_calls v) (v_slashed_call v) (v_vals v)
+  | DBatch x => mkView (v_recs v) (v_byb v) (v_bye v) (v_prop v) (v_power v) (v_deleg v) (v_ubds v) (v_balo v) (v_bald v) (v_sets v) (v_slashed_set v) (put_obj x (v_batches v)) (v_slashed_batch v) (v_calls v) (v_slashed_call v) (v_vals v)
+  | DBatches l => mkView (v_recs v) (v_byb v) (v_bye v) (v_prop v) (v_power v) (v_deleg v) (v_ubds v) (v_balo v) (v_bald v) (v_sets v) (v_slashed_set v) l (v_slashed_batch v) (v_calls v) (v_slashed_call v) (v_vals v)
+  | DSlashedBat z => mkView (v_recs v) (v_byb v) (v_bye v) (v_prop v) (v_power v) (v_deleg v) (v_ubds v) (v_balo v) (v_bald v) (v_sets v) (v_slashed_set v) (v_batches v) z (v_calls v) (v_slashed_call v) (v_vals v)
+  | DCall x => mkView (v_recs v) (v_byb v) (v_bye v) (v_prop v) (v_power v) (v_deleg v) (v_ubds v) (v_balo v) (v_bald v) (v_sets v) (v_slashed_set v) (v_batches v) (v_slashed_batch v) (put_obj x (v_calls v)) (v_slashed_call v) (v_vals v)
+  | DCalls l => mkView (v_recs v) (v_byb v) (v_bye v) (v_prop v) (v_power v) (v_deleg v) (v_ubds v) (v_balo v) (v_bald v) (v_sets v) (v_slashed_set v) (v_batches v) (v_slashed_batch v) l (v_slashed_call v) (v_vals v)
+  | DSlashedCall z => mkView (v_recs v) (v_byb v) (v_bye v) (v_prop v) (v_power v) (v_deleg v) (v_ubds v) (v_balo v) (v_bald v) (v_sets v) (v_slashed_set v) (v_batches v) (v_slashed_batch v) (v_calls v) z (v_vals v)
+  | DVal x => mkView (v_recs v) (v_byb v) (v_bye v) (v_prop v) (v_power v) (v_deleg v) (v_ubds v) (v_balo v) (v_bald v) (v_sets v) (v_slashed_set v) (v_batches v) (v_slashed_batch v) (v_calls v) (v_slashed_call v) (put_val x (v_vals v))
   end.
 Definition patch (v : view) (ds : list vdelta) : view := fold_left patch1 ds v.
 
@@ -151,9 +162,14 @@ Record orc_case := mkCase {
   c_view0 : view;
   c_steps : list (op * Z * list vdelta) }.
 
-Definition mk_orc_case (accs orcs exts vs : list Z) (h t ub : Z) (thr mul frac win : Z)
+Definition vset_of (l : list (Z * Z * Z)) : vset :=
+  mkV (map (fun x => fst (fst x)) l)
+      (fun v => match find (fun x => fst (fst x) =? v) l with Some x => snd (fst x) | None => 0 end)
+      (fun v => match find (fun x => fst (fst x) =? v) l with Some x => snd x | None => 0 end).
+
+Definition mk_orc_case (accs orcs exts : list Z) (vs : list (Z * Z * Z)) (h t ub : Z) (thr mul frac win : Z)
            (v0 : view) (steps : list (op * Z * list vdelta)) : orc_case :=
-  mkCase (mkU accs orcs exts vs) (init h t ub vs (mkParams thr mul frac win)) v0 steps.
+  mkCase (mkU accs orcs exts (map (fun x => fst (fst x)) vs)) (init h t ub (vset_of vs) (mkParams thr mul frac win)) v0 steps.
 
 (* (step index starting at 1, what differs: 100 = class, else view component); (0,0) = agreement *)
 Fixpoint first_diff (U : universe) (s : state) (pv : view) (i : Z) (l : list (op * Z * list vdelta)) : Z * Z :=
